@@ -1,5 +1,4 @@
 import MV.Lemmas.ActorSysTurns
-import MV.Lemmas.ActorSysLocal
 import MV.Spec.ActorSys
 /-!
 # C05 — termination is hierarchical and complete; shutdown waits for everyone
